@@ -311,6 +311,12 @@ impl Ctx {
         F: FnMut(&mut Rng, &mut Case) -> Outcome,
     {
         let sub_seed = mix(self.seed, hash_str(&format!("{}/{}", self.prop, sub)));
+        // development aid: restrict a direct worker run to some sub-checks (never set by the driver)
+        if let Ok(only) = std::env::var("VW_ONLY_SUB") {
+            if !only.split(',').any(|x| x == sub) {
+                return;
+            }
+        }
         // Replay of exactly one case
         if let Some((one_sub, one_idx)) = &self.one {
             if one_sub != sub {
